@@ -6,6 +6,7 @@ import faulthandler
 import hashlib
 import json
 import os
+import tempfile
 import select
 import signal
 import sys
@@ -254,6 +255,9 @@ def write_replay(prop, plan, signature, found_by, minimised, shrink_execs):
 # evidence
 def write_evidence(prop, tier, seed, level, coverage, wall_s, violations, assumptions, extra=None):
     d = os.environ.get('VERIF_EVIDENCE_DIR') or os.path.join(VERIF_DIR, 'evidence')
+    if not os.environ.get('VERIF_EVIDENCE_DIR') and (os.environ.get('VERIF_FAMILIES') or os.environ.get('VERIF_SCALE')):
+        # an experiment (some families only, scaled counts) is not a record of the check: keep it out of evidence/
+        d = os.path.join(tempfile.gettempdir(), 'verif-experiment-evidence')
     os.makedirs(d, exist_ok=True)
     ev = {'property_id': prop, 'tier': tier, 'seed': seed, 'level': level, 'coverage': coverage,
           'assumptions': assumptions, 'wall_s': round(wall_s, 2), 'violations': violations}
